@@ -16,7 +16,7 @@ TEXT = ("W1: in the function that recomputes the leaf / winner caches, inserting
         "comparison of the printed identifiers in (self, other) order) and be antisymmetric; partial_cmp = Some(cmp). "
         "W4: every comparison of the number of leaves with a constant uses the single threshold 1, and the conflicting "
         "set is the leaf set filtered by != winner. Does not decide behaviour under identifier hash collisions."
-        " W2 requires the comparison that selects the winner to be Revision's own order (compared type Revision, not a derived tuple / key).")
+        " W2 requires the comparison that selects the winner to be Revision's own order (compared type Revision, not a derived tuple / key). W1b: the root-reachability helper answers false only where the chain of ancestors is broken (a lookup miss or a missing parent), never under a bound on the chain length or a set of excluded revisions.")
 TRUSTED = ["rustc nightly MIR", "String::cmp is byte-wise lexicographic", "BTreeSet / HashMap semantics"]
 TECHNIQUE = "static analysis: edge dominance over MIR + finite predicate abstraction of the comparator's CFG"
 
